@@ -22,14 +22,14 @@ import (
 // ------------------------------------------------------------------------------------ ordered YAML trees
 
 type onode struct {
-	kind    string // map seq str int bool
-	keys    []string
-	vals    []*onode
-	items   []*onode
-	s       string
-	i       int
-	b       bool
-	perm    string // for seq: "free" = the order carries no meaning (level lists, and/or operands)
+	kind  string // map seq str int bool
+	keys  []string
+	vals  []*onode
+	items []*onode
+	s     string
+	i     int
+	b     bool
+	perm  string // for seq: "free" = the order carries no meaning (level lists, and/or operands)
 }
 
 func toOnode(v any, freeSeq bool) *onode {
@@ -231,12 +231,12 @@ func (n *onode) block(r *rand.Rand, b *strings.Builder, indent int, step int) {
 // ------------------------------------------------------------------------------------ profiles
 
 type c15Profile struct {
-	name      string
-	prefixes  map[string]string // prefix -> namespace
-	levels    map[string][]string
-	forms     map[string]FForm // validation name -> formula
-	classes   map[string]string
-	messages  map[string]string
+	name     string
+	prefixes map[string]string // prefix -> namespace
+	levels   map[string][]string
+	forms    map[string]FForm // validation name -> formula
+	classes  map[string]string
+	messages map[string]string
 }
 
 // tree builds the canonical YAML tree; rename maps a compact IRI (path / class / datatype / placeholder) to its spelling.
@@ -312,6 +312,14 @@ func renameExpr(v any, rename func(string) string) any {
 }
 
 func (p c15Profile) render(r *rand.Rand, variant bool) string {
+	v, _ := p.render2(r, variant)
+	return v
+}
+
+// render2 also returns the intermediate text of a variant: compact IRIs respelled (prefixes renamed / aliased), nothing
+// reordered yet, so that variant = reordering(respelling(original)) can be checked step by step against the two relations
+// of the C15 theorems.
+func (p c15Profile) render2(r *rand.Rand, variant bool) (string, string) {
 	prefixes := map[string]string{}
 	for k, v := range p.prefixes {
 		prefixes[k] = v
@@ -358,8 +366,11 @@ func (p c15Profile) render(r *rand.Rand, variant bool) string {
 	if !variant {
 		b.WriteString("#%Validation Profile 1.0\n")
 		t.block(rand.New(rand.NewSource(1)), &b, 0, 2)
-		return b.String()
+		return b.String(), ""
 	}
+	var mid strings.Builder
+	mid.WriteString("#%Validation Profile 1.0\n")
+	t.block(rand.New(rand.NewSource(1)), &mid, 0, 2)
 	t.shuffle(r)
 	if r.Intn(3) != 0 {
 		b.WriteString("#%Validation Profile 1.0\n")
@@ -368,7 +379,7 @@ func (p c15Profile) render(r *rand.Rand, variant bool) string {
 		b.WriteString("---\n")
 	}
 	t.block(r, &b, 0, []int{2, 2, 3, 4}[r.Intn(4)])
-	return b.String()
+	return b.String(), mid.String()
 }
 
 // amfDefaultsSx: the built-in prefix table (contexts.DefaultAMFContext) as the model's default context.
@@ -538,6 +549,24 @@ func C15(e *core.Env) {
 		res.Count("model-parser-answer=" + ans.Atom)
 		return nil, false
 	}
+	// respelled: same shape, compact IRIs spelled differently but expanding alike (YamlRespell.respell_doc_b)
+	respelled := func(a, b string) (bool, bool) {
+		var da, db yaml3.Node
+		if yaml3.Unmarshal([]byte(a), &da) != nil || yaml3.Unmarshal([]byte(b), &db) != nil || len(da.Content) == 0 || len(db.Content) == 0 {
+			return false, false
+		}
+		ya, ok1 := yamlSx(da.Content[0])
+		yb, ok2 := yamlSx(db.Content[0])
+		if !ok1 || !ok2 {
+			return false, false
+		}
+		ans, err := e.Driver.Eval(sx.L(sx.A("c15"), sx.A("respelled"), sx.L(defaults...), ya, yb))
+		if err != nil {
+			res.Violate("harness-error", err.Error(), map[string]any{"no_failing_input_found": true, "broken": "driver"})
+			return false, false
+		}
+		return ans.Atom == "1", true
+	}
 	// related: is the second text's tree a key / free-list reordering of the first's (YamlRewrite.related, sound for yrw)?
 	related := func(a, b string) (bool, bool) {
 		var da, db yaml3.Node
@@ -649,7 +678,19 @@ func C15(e *core.Env) {
 		var origTree yaml3.Node
 		yaml3.Unmarshal([]byte(orig), &origTree)
 		for vi := 0; vi < k; vi++ {
-			variant := p.render(e.Rand, true)
+			variant, respeltOnly := p.render2(e.Rand, true)
+			if vi > 0 && vi <= 2 {
+				// variant = reordering(respelling(original)): both steps must be instances of the relations of the theorems
+				// (C15_prefix_respelling: YamlRespell.respell_doc_b; C15_rewriting_at_any_depth: YamlRewrite.related)
+				if ok1, ok := respelled(orig, respeltOnly); ok {
+					ok2, _ := related(respeltOnly, variant)
+					res.Count("respelling-then-reordering-recognised-by-the-model")
+					if !ok1 || !ok2 {
+						res.Violate("model-mismatch", fmt.Sprintf("a rewriting made of prefix respelling (recognised: %v) followed by reordering (recognised: %v) is not an instance of the relations of the C15 theorems", ok1, ok2),
+							map[string]any{"no_failing_input_found": true, "broken": "correspondence: the harness's rewritings vs YamlRespell.respell_doc_b / YamlRewrite.related", "original_profile": orig, "respelled_profile": respeltOnly, "rewritten_profile": variant})
+					}
+				}
+			}
 			if vi == 0 {
 				// a rewriting made of key / free-list reordering and styles only: an instance of the relation of
 				// C15_rewriting_at_any_depth, which the extracted test must recognise
@@ -1004,8 +1045,34 @@ func c15Text(e *core.Env, rc config.ReportConfiguration, summary func(string) (s
 		}
 		for v := 0; v < n; v++ {
 			t := tree.clone()
+			hasPrefixes := false
+			for _, k := range tree.keys {
+				if k == "prefixes" {
+					hasPrefixes = true
+				}
+			}
 			if v > 0 {
 				aliasPrefixes(e.Rand, t)
+				if v == 1 && hasPrefixes {
+					// the respelling step alone (nothing reordered): an instance of the relation of C15_prefix_respelling
+					var mb strings.Builder
+					mb.WriteString("#%Validation Profile 1.0\n")
+					t.block(rand.New(rand.NewSource(1)), &mb, 0, 2)
+					var dm yaml3.Node
+					if yaml3.Unmarshal([]byte(mb.String()), &dm) == nil && len(dm.Content) > 0 {
+						ya, ok1 := yamlSx(doc.Content[0])
+						yb, ok2 := yamlSx(dm.Content[0])
+						if ok1 && ok2 {
+							if ans, derr := e.Driver.Eval(sx.L(sx.A("c15"), sx.A("respelled"), sx.L(defaults...), ya, yb)); derr == nil {
+								res.Count(stream + "-respelling-recognised-by-the-model")
+								if ans.Atom != "1" {
+									res.Violate("model-mismatch", "a pure prefix respelling of "+i+" is not recognised by YamlRespell.respell_doc_b",
+										map[string]any{"no_failing_input_found": true, "broken": "correspondence: the harness's alias spelling vs the relation of C15_prefix_respelling", "profile_from": where, "original_profile": string(ptxt), "respelled_profile": mb.String()})
+								}
+							}
+						}
+					}
+				}
 			}
 			t.shuffle(e.Rand)
 			var b strings.Builder
